@@ -10,6 +10,7 @@ let drv_set () =
     | "case" :: _ -> print_endline (String.concat " " toks); bops := []
     | ["new"; g] -> s := create_set (nat_of_int (int_of_string g))
     | ["add"; v] -> s := set_add (str_tok v) !s
+    | ["addf"; _; v] -> s := set_add (str_tok v) !s; print_endline "addf ok"   (* allocation failures are outside the model *)
     | ["pop"; v] -> s := set_pop (str_tok v) !s
     | "q" :: vs ->
         let cs = List.map (fun v -> string_of_int (int_of_nat (get_count (str_tok v) !s))) vs in
@@ -55,7 +56,11 @@ let drv_linq () =
         st := linit (coqz_of_string deb) (nat_of_int (int_of_string g)) clock0;
         print_endline "load ok"
     | ["lq_reload"; g] -> step (LReload (nat_of_int (int_of_string g)))
-    | ["lq_push"; p; m] -> step (LPush (str_tok p, n_of_string m))
+    | ["lq_push"; p; m] ->
+        (* environment fact outside the Gallina model: symlinkat refuses a target of PATH_MAX bytes or more;
+           the push fails and the queue is unchanged *)
+        if List.length (encode (n_of_string m) (str_tok p)) >= 4096 then print_endline "push err"
+        else step (LPush (str_tok p, n_of_string m))
     | ["lq_head"] -> step LHead
     | ["lq_pop"] -> step LPop
     | ["lq_redeb"; d] -> step (LRedeb (coqz_of_string d))
@@ -98,6 +103,7 @@ let drv_pure () =
     match toks with
     | "case" :: _ -> print_endline (String.concat " " toks)
     | ["ext"; p] -> Printf.printf "ext %s\n" (tok_str (get_file_extension (str_tok p)))
+    | ["ctr"; v] -> Printf.printf "ctr %s\n" (string_of_n (undec (dec (n_of_string v))))
     | ["sp"; root; rel; ver; k] ->
         let sp = iter_n (int_of_string k) increment (create_store_path (str_tok root) (str_tok rel) (str_tok ver)) in
         Printf.printf "sp %s\n" (tok_str (current_path sp))
